@@ -356,7 +356,7 @@ func writeEvidence(spec *Spec, tier string, seed int64, eng *Engine, results []*
 			"clauses":                       clauseStats,
 			"queries":                       queries,
 			"solver_time_s":                 round2(solve.Seconds()),
-			"solver_versions":               []string{"z3 4.8.12 (-in, incremental push/pop)"},
+			"solver_versions":               []string{primarySolverVersion()},
 			"if_converted_branches":         ifconv,
 			"covers_reached":                coverList,
 			"instances":                     instances,
